@@ -4,6 +4,9 @@
    Comparison result codes: 0 False, 1 True, 2 UnmatchedContextError, 3 UnmatchedMonotonicityError,
    4 NotImplementedError, 5 any other exception. *)
 From FCA Require Export Corr.Common Model.C08_Concept Spec.C08_Order Spec.C08_Pattern.
+(* the many-valued model and spec of C13/C14, for PatternConcept.from_objects over all four pattern
+   structures; loaded but NOT imported: they share short names with Model/C08_Concept.v *)
+From FCA Require Model.MVContext Spec.MVLatticeSpec.
 
 (* a context of the case: formal (names as ids + table) or many-valued (cells encoded injectively
    by the harness as lists of integers, with a pattern-type id per column) *)
@@ -33,11 +36,17 @@ Record cc := mk_cc { cc_ctx : nat; cc_hash : Z; cc_mono : bool; cc_ext : list na
 Inductive fo_out := FOk (ext_i ext int_i int : list nat) (hash : Z) (mono : bool) | FErr (kind : nat).
 Inductive po_out := POk (ext_i ext : list nat) (intent : list desc) (hash : Z) | PErr (kind : nat).
 
+(* PatternConcept.from_objects on a context with any mix of structures: intent by structure index *)
+Inductive pa_out :=
+| PAOk (ext_i ext : list nat) (intent : list FCA.Model.PatternStructure.desc) (hash : Z)
+| PAErr (kind : nat).
+
 Inductive c08_case :=
 | CmpCase (pattern : bool) (ctxs : list ctxv) (fresh : list Z) (cs : list cc) (res : list (list nat))
       (* fresh : hash_fixed of a freshly built context with the content ctxs[k] *)
 | FromObjCase (b : backend) (K : fctx) (h : Z) (items : list (objs_arg * bool * bool * fo_out))
 | PFromObjCase (K : mvctx) (h : Z) (items : list (objs_arg * bool * bool * po_out))
+| PAllCase (K : FCA.Model.MVContext.mvctx) (h : Z) (items : list (list nat * bool * pa_out))
 | SetattrCase (pattern : bool) (key : nat) (impl_err : nat) (unchanged : bool)
 | HashCase (K : fctx) (h : Z).
 
@@ -260,6 +269,35 @@ Definition pfromobj_check (K : mvctx) (h : Z) (items : list (objs_arg * bool * b
   let ok := forallb (fun it => let '(arg, e, m, o) := it in po_out_eqb o (po_spec K h arg e m)) items in
   code_of same ok.
 
+(* ------------------------------------------------------------------ from_objects (all structures)
+   model: Model/FCA.Model.MVContext.v pc_from_objects_views; spec: the product closure of Spec/FCA.Spec.PatternSpec.v
+   (most specific description per column / the conventions for no objects, then the containment
+   filter); value sets are compared as sets *)
+
+Definition descs_eqb (a b : list FCA.Model.PatternStructure.desc) : bool := list_eqb FCA.Spec.PatternSpec.desc_eqb a b.
+
+Definition pa_out_eqb (x y : pa_out) : bool :=
+  match x, y with
+  | PAOk a1 b1 d1 h1, PAOk a2 b2 d2 h2 =>
+      nat_list_eqb a1 a2 && nat_list_eqb b1 b2 && descs_eqb d1 d2 && Z.eqb h1 h2
+  | PAErr k1, PAErr k2 => Nat.eqb k1 k2
+  | _, _ => false
+  end.
+
+Definition pa_model (K : FCA.Model.MVContext.mvctx) (h : Z) (objs : list nat) (e : bool) : pa_out :=
+  let v := FCA.Model.MVContext.pc_from_objects_views K objs e in
+  PAOk (FCA.Model.MVContext.pv_ext_i v) (FCA.Model.MVContext.pv_ext v) (map snd (FCA.Model.MVContext.pv_int_i v)) h.
+
+Definition pa_spec (K : FCA.Model.MVContext.mvctx) (h : Z) (objs : list nat) (e : bool) : pa_out :=
+  let cols := FCA.Model.MVContext.mv_cols K in
+  let A' := if e then objs else FCA.Spec.PatternSpec.mv_cl_spec cols (FCA.Model.MVContext.mv_n K) objs in
+  PAOk A' (map (fun g => nth g (FCA.Model.MVContext.mv_onames K) 0) A') (FCA.Spec.PatternSpec.mv_int_spec cols objs) h.
+
+Definition pall_check (K : FCA.Model.MVContext.mvctx) (h : Z) (items : list (list nat * bool * pa_out)) : nat :=
+  let same := forallb (fun it => let '(objs, e, o) := it in pa_out_eqb o (pa_model K h objs e)) items in
+  let ok := forallb (fun it => let '(objs, e, o) := it in pa_out_eqb o (pa_spec K h objs e)) items in
+  code_of same ok.
+
 (* ------------------------------------------------------------------ attribute assignment
    keys, formal : 0 extent_i 1 extent 2 intent_i 3 intent 4 context_hash 5 is_monotone 6 measures 7.. other
    keys, pattern: 0 extent_i 1 extent 2 intent_i 3 intent 4 pattern_types 5 support 6 context_hash
@@ -296,6 +334,7 @@ Definition c08_check (c : c08_case) : nat :=
   | CmpCase p ctxs fresh cs res => cmp_check p ctxs fresh cs res
   | FromObjCase b K h items => fromobj_check b K h items
   | PFromObjCase K h items => pfromobj_check K h items
+  | PAllCase K h items => pall_check K h items
   | SetattrCase p k e u => setattr_check p k e u
   | HashCase K h => code_of (Z.eqb (H_adler K) h) true
   end.
@@ -304,6 +343,7 @@ Inductive c08_shown :=
 | ShCmp (model spec : list (list nat)) (guards : list bool)
 | ShFo (model spec : list fo_out)
 | ShPo (model spec : list po_out)
+| ShPa (model spec : list pa_out)
 | ShSet (model spec : nat)
 | ShHash (h : Z).
 
@@ -320,6 +360,9 @@ Definition c08_show (c : c08_case) : c08_shown :=
   | PFromObjCase K h items =>
       ShPo (map (fun it => let '(arg, e, m, _) := it in po_model K h arg e m) items)
            (map (fun it => let '(arg, e, m, _) := it in po_spec K h arg e m) items)
+  | PAllCase K h items =>
+      ShPa (map (fun it => let '(objs, e, _) := it in pa_model K h objs e) items)
+           (map (fun it => let '(objs, e, _) := it in pa_spec K h objs e) items)
   | SetattrCase p k _ _ => ShSet (setattr_model p k) (setattr_spec p k)
   | HashCase K _ => ShHash (H_adler K)
   end.
